@@ -20,6 +20,12 @@ static const char *const PROGS[] = {
 	// re-entry inside the last leaver's window (three threads): a waiter / notifier of the NEW generation must not be forgotten
 	"1; l | E L | W", "1; l | E L | T", "1; W | l | E L", "2; l l | E L | W",
 	"1; n l | E L | W",
+	// a notify registered by a thread that has re-entered the group while the last leaver is still waking the previous generation
+	"1; n l | E n L",
+	"1; n n l | E n L",
+	"1; n l | E n L | W",
+	"1; n l | E n T L",         // the re-entering thread blocks (1 ms timed wait on its own entry) before it leaves: a notify run early is seen at k<=1
+	"1; n n l | E n T L",
 	0
 };
 
@@ -156,8 +162,17 @@ static int check(int v, const vx_log *l, char *msg, size_t len)
 			int c = ev_first(l, EV_NOTIFY_CALL, e->id);
 			if (c < 0 || c > (int)i) FAILF(msg, len, "notify block %d started before it was registered", e->id);
 			if (ev_count(l, EV_NOTIFY_START, e->id) != 1) FAILF(msg, len, "notify block %d was submitted %d times", e->id, ev_count(l, EV_NOTIFY_START, e->id));
-			if (!balanced_somewhere(l, c, (int)i))
+			if (!balanced_somewhere(l, c, (int)i)) {
+				// Told apart because one of the two is a recorded defect of the pinned tree (known finding F17): a notify registered
+				// while the last leaver of the previous generation is between its decrement and its snapshot of the notify list is
+				// fired with that generation.  In that history every block of that wake-up starts after this registration; if another
+				// notify block had ALREADY started when this one was registered, the list was still being consumed after its snapshot.
+				int earlier = -1;
+				for (int j = 0; j < c; j++) if (l->ev[j].kind == EV_NOTIFY_START) earlier = l->ev[j].id;
+				if (earlier >= 0)
+					FAILF(msg, len, "notify block %d started (event #%u) although between its registration (event #%d) and its start the group was never empty; notify block %d of the wake-up that fired it had already started when it was registered", e->id, i, c, earlier);
 				FAILF(msg, len, "notify block %d started (event #%u) although between its registration (event #%d) and its start the group was never empty", e->id, i, c);
+			}
 		}
 	}
 	for (int t = 0; t < p.nthr; t++) for (int k = 0; k < p.nops[t]; k++) {
